@@ -104,6 +104,12 @@ class SOpaque(Sym):
     pytype = object
 
 
+class SStrList(Sym):
+    """list of str obtained from a symbolic str by a pure function without a precise model (str.split, splitlines,
+    re.split ...): a term of the uninterpreted sort Obj; only sep.join(.) of it is given a meaning (again uninterpreted)"""
+    pytype = list
+
+
 Obj = z3.DeclareSort("Obj")
 FP64 = z3.Float64()
 RNE = z3.RNE()
